@@ -9,6 +9,9 @@
     the real stored bytes, looks for the plaintext in the raw bytes and compares
     two writes of equal data.  Name-space operations: the C01 conformance cases
     (FsTree transitions) are replayed through an encrypted filespace.
+    The caller behaves like a real one: ONE slice per secret / salt (with spare capacity)
+    is handed to every filespace it builds and must stay untouched; streams are written
+    through one reused buffer that is overwritten as soon as Write has returned.
 What the specification does NOT decide: cryptographic strength (AES-GCM, the KDF,
 the RNG) -- nonce freshness is observed as inequality of outputs only."""
 import os, json
